@@ -668,13 +668,16 @@ static err_t call_ParamsDec(fc_ctx* c) { return bignParamsDec(c->a[0], c->a[1], 
 static int bad_ParamsDec(fc_ctx* c, int j, err_t* exp)
 {
 	exp[0] = FC_ANYERR;
+	if (c->n[1] < 4)
+		return 0; /* already shortened by another variant */
 	switch (j)
 	{
-	case 0: if (c->n[1] < 4) return 0; c->n[1] -= 1; return 1;
-	case 1: c->n[1] = 0; return 1;
+	case 0: if (c->n[1] < 4) return 0; c->n[1] -= 1; c->a[1] = fc_cut(c, c->a[1], c->n[1]); return 1;   /* truncated code in a buffer of exactly that size */
+	case 1: c->n[1] = 0; c->a[1] = fc_cut(c, c->a[1], 0); return 1;
 	case 2: ((octet*)c->a[1])[0] ^= 1; return 1;
 	case 3: ((octet*)c->a[1])[1] ^= 0x7F; return 1;
-	case 4: c->n[1] = 3; return 1;
+	case 4: if (c->n[1] < 3) return 0; c->n[1] = 3; c->a[1] = fc_cut(c, c->a[1], 3); return 1;
+	case 5: if (c->n[1] < 4) return 0; c->n[1] = 1 + fc_below(c, (uint32_t)c->n[1] - 1); c->a[1] = fc_cut(c, c->a[1], c->n[1]); return 1;   /* any proper prefix */
 	}
 	return 0;
 }
